@@ -16,10 +16,11 @@ from graphql import build_schema, execute_sync, parse
 stubs.const_inspect(scalars, definition, executor, values)
 
 SDL = """
-interface Node { id: ID! name: String }
+interface Node { id: ID! name: String label(prefix: String = "n"): String }
 type User implements Node { id: ID! name: String age: Int friends: [User!] best: User
-  posts(first: Int = 2, tag: Tag = A, flt: Flt = {min: 1}): [Post] nn: Int! grid: [[Int]] }
-type Post implements Node { id: ID! name: String author: User! score: Float }
+  posts(first: Int = 2, tag: Tag = A, flt: Flt = {min: 1}): [Post] nn: Int! grid: [[Int]]
+  label(prefix: String = "u", upper: Boolean = false): String }
+type Post implements Node { id: ID! name: String author: User! score: Float label(prefix: String = "p"): String }
 union Item = User | Post
 enum Tag { A B }
 input Flt { min: Int = 0 max: Int words: [String!] }
@@ -50,13 +51,29 @@ DOCS = [
       items { __typename ... on Node { id } ... on User @skip(if: $s2) { age } ... on Post { author { id nn } } }
       me { posts(first: $n, tag: $t) { id score author { nn } } grid }
       user { id }
-      e2: echo(x: 5, s: null, l: [$n], f: {min: $n, words: ["a"]})
+      e2: echo(x: 5, s: null, l: [4], f: {min: $n, words: ["a"]})
       strict @include(if: $i2) { nn }
       it2: items { ... @include(if: $i1) { ... on User { age } ... on Post { score } } }
       e3: echo(l: [2, $m], f: {words: ["w"], max: $m})
     }""",
+    # 2: the same response key selected by several field nodes (merged), completed for different runtime
+    #    types within one list; one interface field node executed for types that declare its arguments differently
+    """query Q($s1: Boolean!, $s2: Boolean!, $i1: Boolean!, $i2: Boolean!, $n: Int, $t: Tag = B, $p: String) {
+      items { __typename ... on Node { label } }
+      items { ... on User @skip(if: $s1) { age l2: label(prefix: $p) } ... on Post { score l2: label(prefix: $p) } }
+      ...QF @include(if: $i2)
+      node(id: "p1") { id label(prefix: "x") }
+      node(id: "p1") { ... on Post @skip(if: $s2) { score } ... on User { age } }
+      me { friends { id } best { id label } }
+      me { friends { ... on User { age } ... on Node @include(if: $i1) { name label } } }
+      echo(x: $n, t: $t)
+    }
+    fragment QF on Query { items { ... on Node { id } ... on Post @include(if: $i1) { author { id label } } } }""",
 ]
 PARSED = [parse(d) for d in DOCS]
+from graphql import validate as _validate
+for _d in PARSED:
+    assert _validate(build_schema(SDL), _d) == [], _validate(build_schema(SDL), _d)
 
 
 class Boom(Exception):
@@ -182,7 +199,7 @@ def history_independence(s1: bool, i1: bool, age: Optional[int], s1b: bool, i1b:
 
 BOUNDS = {
     "quick": [
-        "2 request templates over one schema (objects, interface, union, [T!], [[Int]], T! at several depths, arguments with defaults, input objects, enum): 4 symbolic @skip/@include variables (16 selection shapes each), symbolic variable $n (absent or any int), data leaves name (None or a string), age / nn (None or any int), best None/object; cells: friends list shape (None, [], 1, 2 items) x which resolver raises (none or one of 7)",
+        "3 request templates over one schema (objects, interface, union, [T!], [[Int]], T! at several depths, arguments with defaults, input objects, enum): 4 symbolic @skip/@include variables (16 selection shapes each), symbolic variable $n (absent or any int), data leaves name (None or a string), age / nn (None or any int), best None/object; cells: friends list shape (None, [], 1, 2 items) x which resolver raises (none or one of 7)",
         "history: the same request executed before and after a different request on the same schema/document objects",
     ],
     "thorough": ["same cells with a larger budget (all cells expected to exhaust)"],
